@@ -269,6 +269,14 @@ def run(run):
                 L = pc.ctx.lattice
                 nL = len(L)
             run.case(pc.line + '|pickle large', True, {'context': '%dx%d scale' % (pc.n, pc.m), 'concepts': nL})
+            with guard(run, 'pickle of a context whose (large) lattice is already computed', [pc.line]):
+                try:
+                    c2 = pickle.loads(pickle.dumps(pc.ctx))
+                except RecursionError:
+                    c2 = None
+                    run.fail('pickle.dumps(context) with a computed lattice of %d concepts' % nL, 'raised RecursionError', 'pickles', [pc.line])
+                if not (c2 == pc.ctx):
+                    run.fail('pickled context with a large computed lattice reloads differently', None, None, [pc.line])
             try:
                 blob = pickle.dumps(L)
             except RecursionError:
